@@ -118,6 +118,7 @@ FMT_TYPES = {
     'Atomic': ('&Atomic', '&({e})', 'disp_atom(view_atom(*{a}))'),
     'HctlTreeNode': ('&HctlTreeNode', '&({e})', '{a}.formula_str@'),
     'usize': ('usize', '{e}', 'dec_digits({a} as nat)'),
+    'char': ('char', '{e}', 'seq![{a}]'),
     'i32': ('i32', '{e}', 'dec_digits_int({a} as int)'),
 }
 
@@ -744,6 +745,58 @@ def rule_hoist(ctx, sig, body, arg):
     new = '{\n            ' + '\n            '.join(lets) + '\n            ' + expr + '\n        }'
     ctx.note('R-hoist', body[e_start:e_end], new)
     return sig, body[:e_start] + new + body[e_end:]
+
+
+def rule_orguard(ctx, sig, body, arg):
+    """@rule orguard <scrutinee>: a match arm `L1 | L2 | .. if G => B` over literal patterns ->
+    `_ if (<scrutinee> == L1 || <scrutinee> == L2 || ..) && G => B`.
+    Matching a literal pattern is equality with the literal, the guard is evaluated only when a pattern matches, and `&&` keeps that
+    order; Verus does not support an or-pattern together with a guard in one arm."""
+    x = arg.strip()
+    pat = re.compile(r"((?:'(?:\\.|[^'\\])'\s*\|\s*)+'(?:\\.|[^'\\])')\s+if\s+")
+    m = pat.search(body)
+    if not m:
+        raise RuleError('orguard: no `L1 | L2 if G =>` arm with character literals')
+    lits = [l.strip() for l in m.group(1).split('|')]
+    # the guard runs up to the `=>` of this arm
+    j = body.index('=>', m.end())
+    guard = body[m.end():j].strip()
+    cond = ' || '.join(f'{x} == {l}' for l in lits)
+    new = f'_ if ({cond}) && ({guard}) '
+    ctx.note('R-orguard', body[m.start():j], new)
+    return sig, body[:m.start()] + new + body[j:]
+
+
+def rule_byref(ctx, sig, body, arg):
+    """@rule byref: `for X in IT.by_ref() {` -> `while let Some(X) = IT.next() {`
+    (the for loop over `&mut I` calls next() until it returns None; Iterator::by_ref has no Verus specification)."""
+    pat = re.compile(r'for\s+(\w+)\s+in\s+([\w\.]+)\s*\.\s*by_ref\(\)\s*\{')
+    ms = list(pat.finditer(body))
+    if not ms:
+        raise RuleError('no `for x in it.by_ref() {`')
+    for m in reversed(ms):
+        new = f'while let Some({m.group(1)}) = {m.group(2)}.next() {{'
+        ctx.note('R-byref', m.group(0), new)
+        body = body[:m.start()] + new + body[m.end():]
+    return sig, body
+
+
+def rule_noprint(ctx, sig, body, arg):
+    """@rule noprint: `println!(..);` statements are removed: writing to stdout is not part of the value a function computes
+    (the contract says nothing about stdout). Used for the "should never happen" branch of the canoniser, which is ALSO proved
+    unreachable by an assertion placed there."""
+    calls = _macro_calls(body, 'println')
+    if not calls:
+        raise RuleError('no println!')
+    for start, end, inner in reversed(calls):
+        e = end
+        while e < len(body) and body[e] in ' \t':
+            e += 1
+        if e < len(body) and body[e] == ';':
+            e += 1
+        ctx.note('R-noprint', body[start:e], '')
+        body = body[:start] + body[e:]
+    return sig, body
 
 
 def rule_nocallback(ctx, sig, body, arg):
